@@ -189,6 +189,33 @@ func init() {
 			}
 			return true
 		})
+		// ---- pkg/bufioutil: entry framing (uvarint length header + content; ReadUvarint + io.ReadFull)
+		_, er, err := ParseFile(repo, "pkg/bufioutil/bufio_entry_reader.go")
+		if err != nil {
+			return "", err
+		}
+		nx := FindFunc(er, "bufioEntryReader", "Next")
+		if nx == nil {
+			return "", fmt.Errorf("bufioEntryReader.Next not found")
+		}
+		sb.WriteString("def entryReaderNextCalls : List String := " + LeanStrList(CallSeq(nx)) + "\n")
+		_, ew, err := ParseFile(repo, "pkg/bufioutil/bufio_writer.go")
+		if err != nil {
+			return "", err
+		}
+		wr := FindFunc(ew, "bufioEntryWriter", "Write")
+		if wr == nil {
+			return "", fmt.Errorf("bufioEntryWriter.Write not found")
+		}
+		sb.WriteString("def entryWriterWriteCalls : List String := " + LeanStrList(CallSeq(wr)) + "\n")
+		sb.WriteString("def entryWriterSyncCalls : List String := " + LeanStrList(CallSeq(FindFunc(ew, "bufioEntryWriter", "Sync"))) + "\n")
+		for _, p := range [][2]interface{}{{er, "defaultReadBufferSize"}, {ew, "defaultWriteBufferSize"}} {
+			v, ok := ConstInts(p[0].(*ast.File))[p[1].(string)]
+			if !ok {
+				return "", fmt.Errorf("%s not found", p[1])
+			}
+			fmt.Fprintf(&sb, "def %s : Nat := %d\n", p[1], v)
+		}
 		sb.WriteString("def builderCloseResultNames : List String := " + LeanStrList(resNames) + "\n")
 		sb.WriteString("def builderCloseDeferAssigned : List String := " + LeanStrList(deferAssigned) + "\n")
 		sb.WriteString("def builderCloseVarDecls : List String := " + LeanStrList(declared) + "\n")
